@@ -4,6 +4,7 @@ import (
 	"encoding/json"
 	"fmt"
 	"os"
+	"runtime/debug"
 	"sort"
 	"strings"
 	"time"
@@ -172,8 +173,8 @@ func sampleOf(c *Case) any {
 }
 
 // RunJob is the worker entry point.
-func RunJob(job *Job) *JobResult {
-	res := &JobResult{Prop: job.Prop, Worker: job.Worker, Subs: map[string]int{}}
+func RunJob(job *Job) (res *JobResult) {
+	res = &JobResult{Prop: job.Prop, Worker: job.Worker, Subs: map[string]int{}}
 	p := registry[job.Prop]
 	if p == nil {
 		res.Infra = "unknown property " + job.Prop
@@ -185,7 +186,7 @@ func RunJob(job *Job) *JobResult {
 			if ie, ok := r.(InfraError); ok {
 				res.Infra = ie.Msg
 			} else {
-				res.Infra = fmt.Sprintf("harness panic: %v", r)
+				res.Infra = fmt.Sprintf("harness panic: %v\n%s", r, debug.Stack())
 			}
 		}
 		res.WallS = time.Since(start).Seconds()
